@@ -810,6 +810,10 @@ func sizeSumHonoursRepeat(w *World, r *Report, prop string) {
 					if !adds {
 						continue
 					}
+					// the width comes from a helper that is handed the member and asks it itself
+					if helperAsksRepeat(bo.X, elem) || helperAsksRepeat(bo.Y, elem) {
+						continue
+					}
 					behind := false
 					for _, t := range tests {
 						if t != b && t.Dominates(b) {
@@ -1337,4 +1341,41 @@ func parsePhaseSet(w *World) map[*ssa.Function]bool {
 		out[f] = true
 	}
 	return out
+}
+
+// helperAsksRepeat: v is the (integer) result of a repository routine that is handed the member elem and reads IsRepeat of that
+// parameter.
+func helperAsksRepeat(v ssa.Value, elem ssa.Value) bool {
+	var c *ssa.Call
+	switch x := stripIdentity(v).(type) {
+	case *ssa.Call:
+		c = x
+	case *ssa.Extract:
+		c, _ = x.Tuple.(*ssa.Call)
+	}
+	if c == nil {
+		return false
+	}
+	g := c.Call.StaticCallee()
+	if g == nil || g.Blocks == nil {
+		return false
+	}
+	for i, a := range c.Call.Args {
+		if stripIdentity(a) != stripIdentity(elem) || i >= len(g.Params) {
+			continue
+		}
+		p := g.Params[i]
+		asks := false
+		forEachInstr(g, func(_ *ssa.BasicBlock, ins ssa.Instruction) {
+			if fa, ok := ins.(*ssa.FieldAddr); ok {
+				if tn, f, _, _ := fieldOf(fa); tn == "Field" && f == "IsRepeat" && stripIdentity(fa.X) == ssa.Value(p) {
+					asks = true
+				}
+			}
+		})
+		if asks {
+			return true
+		}
+	}
+	return false
 }
